@@ -281,6 +281,39 @@ def run(chk):
                                                                                        model_tout=[float(x) for x in mc.tout]))
         if [float(x) for x in np.asarray(mc.tout)] != [float(x) for x in ages]:
             chk.fail("rows are reported in the order the ages were requested", dict(tout=ages, f_BH=tg), dict(model_tout=[float(x) for x in mc.tout]))
+    # ---- the BH-fraction model is the standard model plus a different treatment of the BH arrays: with the same arguments (any of the
+    #      documented options, given to the constructor) stars, white dwarfs and neutron stars of every row are IDENTICAL ---------------
+    for r_ in range(4 if chk.tier == "quick" else 30):
+        opts = dict(FeH=float(rng.choice([-1.0, -2.0, 0.0, -0.5])), esc_rate=float(rng.choice([0.0, -10.0, -30.0])), N0=float(rng.choice([5e5, 2e5])),
+                    NS_ret=float(rng.choice([0.1, 0.5, 1.0])), BH_ret_int=float(rng.choice([1.0, 0.6])))
+        if opts["esc_rate"] != 0:
+            opts.update(tcc=float(rng.choice([0.0, 2000.0, 8000.0])), md=float(rng.choice([1.2, 0.8, 2.0])), esc_norm=rng.choice(["N", "M"]))
+        if rng.random() < 0.4:
+            opts.update(binning_method=rng.choice(["split_linear", "split_log"]))
+        if rng.random() < 0.3:
+            opts.update(binning_breaks=[0.1, 1.0, 100.0])
+        if rng.random() < 0.3:
+            opts.update(BH_IFMR_method=rng.choice(["linear", "banerjee20-delayed", "cosmic-rapid"]))
+        nb_ = [3, 3, 8] if "binning_breaks" not in opts else [4, 8]
+        ages_ = sorted(rng.sample([100.0, 1000.0, 5000.0, 12000.0], 2))
+        base_ = dict(m_breaks=[0.1, 0.5, 1.0, 100], a_slopes=[-0.5, -1.3, -2.5], nbins=nb_, tout=ages_)
+        label_ = dict(base_, **opts)
+        chk.note_distinct(label_)
+        try:
+            with warnings.catch_warnings():
+                warnings.simplefilter("ignore")
+                std_ = emf.EvolvedMF.from_powerlaw(**base_, **opts)
+                wbh_ = emf.EvolvedMFWithBH.from_powerlaw(f_BH=[0.0] * len(ages_), **base_, **opts)
+        except ValueError as e:
+            chk.notes.append("standard / BH-fraction pair raised (%s)" % str(e)[:60])
+            continue
+        chk.count("standard vs BH-fraction model pairs (same options)")
+        for nm_, a_, b_ in (("Ns", std_.Ns, wbh_.Ns), ("alpha", std_.alpha, wbh_.alpha), ("Ms", std_.Ms, wbh_.Ms), ("Nr.WD", std_.Nr.WD, wbh_.Nr.WD),
+                            ("Mr.WD", std_.Mr.WD, wbh_.Mr.WD), ("Nr.NS", std_.Nr.NS, wbh_.Nr.NS)):
+            if not np.array_equal(np.nan_to_num(np.asarray(a_)), np.nan_to_num(np.asarray(b_))):
+                chk.fail("stars and other remnants are not affected by the BH target", label_,
+                         dict(array=nm_, max_abs_diff=float(np.nanmax(np.abs(np.asarray(a_) - np.asarray(b_)))), note="EvolvedMF vs EvolvedMFWithBH with identical options"))
+                break
     vals = C.eval_cases("C08p", IMPORTS, "", exprs)
     for (case, irow, gM, gN), v in zip(meta, vals):
         if v == "FbhErr":
